@@ -180,7 +180,7 @@ namespace Givaro {
 
     void* GivMMFreeList::resize (void* src, const size_t oldsize, const size_t newsize)
     {
-        if (src ==0) return _allocate(newsize)->data ;
+        if (src ==0) return GivMMFreeList::allocate(newsize) ; // allocate() handles newsize == 0
         if (newsize <= oldsize) return src;
         BlocFreeList* tmp = reinterpret_cast<BlocFreeList*>(((char*)src)-sizeof(BlocFreeList)+sizeof(int64_t));
 #ifdef __GIVARO_DEBUG
